@@ -10,7 +10,9 @@ import (
 	_ "verifharness/c07"
 	_ "verifharness/c10"
 	_ "verifharness/c10r"
+	_ "verifharness/c11"
 	_ "verifharness/c14"
 	_ "verifharness/c16"
+	_ "verifharness/c17"
 	_ "verifharness/c18"
 )
